@@ -39,11 +39,17 @@ def load():
     gc.freeze()
 
 
-class UnitTimeout(Exception):
-    pass
+class UnitTimeout(BaseException):
+    """BaseException so that the tool's own `except Exception` handlers do not swallow it."""
+
+
+ALARM_FIRED = [False]
 
 
 def _alarm(signum, frame):
+    ALARM_FIRED[0] = True
+    # re-arm: if a bare `except:` in the tool swallows this one, the next tick raises again
+    signal.setitimer(signal.ITIMER_REAL, 0.5)
     raise UnitTimeout()
 
 
@@ -51,9 +57,12 @@ def _alarm(signum, frame):
 def cpu_alarm(seconds):
     """Raise UnitTimeout inside the block after `seconds` of wall time (SIGALRM)."""
     old = signal.signal(signal.SIGALRM, _alarm)
+    ALARM_FIRED[0] = False
     signal.setitimer(signal.ITIMER_REAL, seconds)
     try:
         yield
+        if ALARM_FIRED[0]:
+            raise UnitTimeout()  # the alarm was swallowed somewhere inside the tool
     finally:
         signal.setitimer(signal.ITIMER_REAL, 0)
         signal.signal(signal.SIGALRM, old)
